@@ -31,7 +31,7 @@ def specMsgLine (impl : String) (b : Bytes) : Obs :=
     Observations of length ≤ 1 (rejected bytes, panics) are always kept whole. -/
 def maskKeeps (mask : String) (i : Nat) : Bool :=
   match mask with
-  | "c01" => i < 7 || (23 ≤ i && i < 34)
+  | "c01" => i < 7 || (23 ≤ i && i < 44)
   | "c02" => 7 ≤ i && i < 27
   | "c04" => (1 ≤ i && i < 7) || (10 ≤ i && i < 18) || (24 ≤ i && i < 27) || (28 ≤ i && i < 30) || (31 ≤ i && i < 34)
   | _ => true
@@ -40,12 +40,37 @@ def maskCells (mask : String) (o : Obs) : Obs :=
   if o.length ≤ 1 || mask == "all" then o
   else (o.zipIdx.filter (fun p => maskKeeps mask p.2)).map (·.1)
 
-/-- `rawx s d1 d2`: `RawShortMessage::try_from((u8, U7, U7))` (= `from_bytes`) and `Into<(u8, U7, U7)>` (the stored tuple) -/
-def modelRawx (b : Bytes) : Obs := obsOf do
-  match ← fromBytes rawFactory b with
-  | none => .ok [0]
-  | some m => .ok (1 :: bytesObs (rawImpl.toBytes m))
-def specRawx (b : Bytes) : Obs := if b.status < 128 then [0] else 1 :: bytesObs b
+/- `rawx s d1 d2`: `RawShortMessage::try_from((u8, U7, U7))` (= `from_bytes`) and `Into<(u8, U7, U7)>` (the stored tuple);
+   `RawShortMessage::from_bytes` called on the concrete type; `from_bytes` of two harness-defined factories -/
+/-- harness-defined factory that keeps only the low 7 bits of the status byte -/
+def packedFactory : Factory Bytes := { rawImpl with ofBytesUnchecked := fun b => .ok ⟨128 + b.status % 128, b.d1, b.d2⟩ }
+/-- harness-defined factory whose unchecked constructor asserts its documented precondition (the harness's own
+    assertion has no panic site in the crate; any panic cell differs from what the implementation may print there) -/
+def strictFactory : Factory Bytes :=
+  { rawImpl with ofBytesUnchecked := fun b => if b.status < 128 then .error .invalidStatusByte else .ok b }
+
+def modelRawx (b : Bytes) : Obs :=
+  (obsOf do
+    match ← fromBytes rawFactory b with
+    | none => .ok [0]
+    | some m => .ok (1 :: bytesObs (rawImpl.toBytes m))) ++
+  (obsOf do
+    match ← fromBytes rawFactory b with
+    | none => .ok [0]
+    | some m => do
+      let t ← msgType rawImpl m
+      .ok (1 :: bytesObs (rawImpl.toBytes m) ++ [(t.toU8 : Int)])) ++
+  (obsOf do
+    match ← fromBytes packedFactory b with
+    | none => .ok [0]
+    | some m => .ok (1 :: bytesObs (rawImpl.toBytes m))) ++
+  (obsOf do
+    match ← fromBytes strictFactory b with
+    | none => .ok [0]
+    | some m => .ok (1 :: bytesObs (rawImpl.toBytes m)))
+def specRawx (b : Bytes) : Obs :=
+  if b.status < 128 then [0, 0, 0, 0]
+  else (1 :: bytesObs b) ++ (1 :: bytesObs b ++ [((specType b.status).toU8 : Int)]) ++ (1 :: bytesObs b) ++ (1 :: bytesObs b)
 
 def blkDigest (mask : String) (f : Bytes → Obs) (s : Nat) : UInt64 := Id.run do
   let mut h := fnvInit
